@@ -82,8 +82,15 @@ def _list_plot_item_labels(cp):
   outlist = [k for (k,v) in items]
   return outlist  
 
+def _split_item_key(key):
+  """Split SECTION_NAME:KEY. The names of [Table-Form:NAME] sections contain a colon themselves."""
+  if key.startswith("Table-Form:") and key.count(":") >= 2:
+    prefix, name, section_key = key.split(":", 2)
+    return prefix + ":" + name, section_key
+  return key.split(":",1)
+
 def _item_value(cp, key):
-  section, section_key = key.split(":",1)
+  section, section_key = _split_item_key(key)
   v = cp.raw_config_parser[section][section_key]
   return v 
 
